@@ -521,13 +521,39 @@ def extract(repo=None, with_tools=True, extra_flags=(), tag=""):
     h = compdb.source_hash(extra=flags + [os.path.getmtime(MTBLX), repo])
     d = os.path.join(FACTS_ROOT, h + tag)
     units = lib + (tools if with_tools else [])
+    os.makedirs(FACTS_ROOT, exist_ok=True)
+    lock = None
+    if not os.path.exists(os.path.join(d, "OK")):
+        # one extraction at a time: concurrent checks of the same tree wait here and then find the finished set
+        import fcntl
+        lock = open(os.path.join(FACTS_ROOT, ".lock"), "w")
+        fcntl.flock(lock, fcntl.LOCK_EX)
+    try:
+        return _extract_locked(repo, lib, tools, with_tools, flags, d)
+    finally:
+        if lock is not None:
+            lock.close()
+
+
+def _mtime(p):
+    try:
+        return os.path.getmtime(p)
+    except OSError:
+        return 0.0
+
+
+def _extract_locked(repo, lib, tools, with_tools, flags, d):
+    if os.path.exists(os.path.join(d, "OK")):
+        try:
+            os.utime(d, None)       # mark as in use: pruning only removes sets untouched for a long time
+        except OSError:
+            pass
     if not os.path.exists(os.path.join(d, "OK")):
         if os.path.isdir(FACTS_ROOT):
-            # keep the cache small: drop older fact sets
-            olds = sorted((os.path.join(FACTS_ROOT, x) for x in os.listdir(FACTS_ROOT) if x != "pos"),
-                          key=lambda p: os.path.getmtime(p))
+            # keep the cache small: drop fact sets nobody touched for 30 minutes, beyond the newest six
+            olds = sorted((os.path.join(FACTS_ROOT, x) for x in os.listdir(FACTS_ROOT) if x not in ("pos", ".lock")), key=_mtime)
             now = time.time()
-            olds = [o for o in olds if now - os.path.getmtime(o) > 600]
+            olds = [o for o in olds if now - _mtime(o) > 1800]
             for o in olds[:-6]:
                 shutil.rmtree(o, ignore_errors=True)
         final = d
